@@ -14,8 +14,8 @@ func init() {
 			"index%3==1: sub-distributor configurations with inflows (as C03/C04) - every Distribution/DistributionBurn event must equal the exact model's assignment for that (sub-distributor, destination) and the events of a sub-distributor plus the parts kept on MAIN must add up to its inflow (tolerance 1e-9). " +
 			"index%3==2: vesting histories (as C05) - WithdrawAvailable events per pool must equal the growth of that pool's withdrawn counter, none for pools that paid nothing, their sum the coins paid; NewVestingAccountFromVestingPool.amount must equal the growth of sent. " +
 			"Non-trivial: mint>0 in >=3 blocks / >=3 distribution events / a withdrawal covering >=2 pools (with an unpaid pool listed between paid ones counted separately). Distinct by configuration/history hash.",
-		Cases:         func(t string) int { return tierN(t, 150, 9000) },
-		MinNontrivial: func(t string) int { return tierN(t, 40, 2500) },
+		Cases:         func(t string) int { return tierN(t, 450, 9000) },
+		MinNontrivial: func(t string) int { return tierN(t, 120, 2500) },
 		Run:           runC18,
 	})
 }
